@@ -322,8 +322,78 @@ def _acc_updates(loop):
     return acc
 
 
+def _data_names(f, loop):
+    """names of the method that (transitively) hold input / output data: bound from an expression that reads
+    inputs[...] / outputs[...] or another such name (flow-insensitive over the whole method: an over-approximation)."""
+    data = set()
+    asg = []
+    for n in _ast.walk(f.node):
+        if isinstance(n, _ast.Assign):
+            tg = [x.id for t in n.targets for x in _ast.walk(t) if isinstance(x, _ast.Name) and isinstance(x.ctx, _ast.Store)]
+            asg.append((tg, n.value))
+        elif isinstance(n, _ast.AugAssign) and isinstance(n.target, _ast.Name):
+            asg.append(([n.target.id], n.value))
+    changed = True
+    while changed:
+        changed = False
+        for tg, v in asg:
+            dep = False
+            for x in _ast.walk(v):
+                if isinstance(x, _ast.Subscript) and isinstance(x.value, _ast.Name) and x.value.id in ("inputs", "outputs"):
+                    dep = True
+                elif isinstance(x, _ast.Name) and x.id in data:
+                    dep = True
+            if dep:
+                for t in tg:
+                    if t not in data:
+                        data.add(t)
+                        changed = True
+    return data
+
+
+def _o9_one(chk, c, mname, f, loop, nm, ups):
+    """O9: a running total of input data over the surface list is not read inside the loop."""
+    data = _data_names(f, loop)
+
+    def is_data(e):
+        for x in _ast.walk(e):
+            if isinstance(x, _ast.Subscript) and isinstance(x.value, _ast.Name) and x.value.id in ("inputs", "outputs"):
+                return True
+            if isinstance(x, _ast.Name) and x.id in data and x.id != nm:
+                return True
+        return False
+
+    incs = [u.value if isinstance(u, _ast.AugAssign) else u.value.right for u in ups]
+    if not any(is_data(e) for e in incs):
+        return  # an index / size offset: decided by O1
+    key = "%s.%s: data accumulator '%s' (loop at line %d)" % (c.name, mname, nm, loop.lineno)
+    reads = []
+    for st in _ast.walk(_ast.Module(body=loop.body, type_ignores=[])):
+        if not isinstance(st, _ast.stmt) or st in ups or isinstance(st, (_ast.For, _ast.If, _ast.While, _ast.With, _ast.Try)):
+            continue
+        for x in _ast.walk(st):
+            if isinstance(x, _ast.Name) and x.id == nm and isinstance(x.ctx, _ast.Load):
+                # element-wise accumulation nm[i] += e reads nm only as the store target
+                if isinstance(st, _ast.AugAssign) and isinstance(st.op, (_ast.Add, _ast.Sub)) and any(x is y for y in _ast.walk(st.target)):
+                    continue
+                reads.append((st.lineno, _unparse(st)[:90]))
+                break
+    for st in _ast.walk(_ast.Module(body=loop.body, type_ignores=[])):
+        if isinstance(st, (_ast.If, _ast.While)):
+            for x in _ast.walk(st.test):
+                if isinstance(x, _ast.Name) and x.id == nm:
+                    reads.append((st.lineno, "if " + _unparse(st.test)[:80]))
+                    break
+    if reads:
+        ln, txt = reads[0]
+        chk.violation("O9", key, where(c, ln), "'%s' is bound before the loop over the surface list, incremented inside it by input data (%s) and read inside the loop by '%s': what is computed for one surface depends on the surfaces listed before it" % (nm, _unparse(incs[0])[:60], txt))
+    else:
+        chk.ok("O9", key, where(c, loop.lineno), "read only after the loop")
+
+
 def o5(chk, repo, models):
     """Order independence of accumulations over the surface list."""
+    chk.rule("O9", "a running total of input / output data over the surface list (bound before the loop, x += data term) is read only after the loop: inside the loop it would make the values computed for one surface depend on the surfaces listed before it (integer index offsets are not data and are decided by O1)", min_decided=9)
     chk.rule("O5", "a quantity accumulated over the surface list (x += term_i / x = x + term_i) is only ever updated by such commutative additions inside the loop: no element store, scaling or overwrite of the running total (the result must not depend on the order of the surfaces)", min_decided=10)
     seen = set()
     for m in models:
@@ -404,6 +474,7 @@ def o5(chk, repo, models):
                             if sub and op in ("Add", "Sub"):
                                 continue  # element-wise accumulation is still commutative
                             bad.append((n.lineno, _unparse(n)[:80], op))
+                    _o9_one(chk, c, mname, f, loop, nm, ups)
                     if bad:
                         ln, txt, op = bad[0]
                         chk.violation("O5", key, where(c, ln), "the running total '%s' over the surface list is also modified by '%s' inside the loop: contributions of surfaces listed earlier are overwritten / rescaled, so the result depends on the order of the surfaces" % (nm, txt))
